@@ -2,7 +2,7 @@
 /tmp, checked through VERIF_REPO; same result as `git -C /repo apply seeded/Cxx/patch.diff ; ./check Cxx ; git -C /repo checkout -- .`)
 and records the outcome in seeded/Cxx/meta.json (`check`) and seeded/Cxx/check_output.txt.
 The evidence file of the property is restored afterwards (evidence must describe the unchanged tree).
-usage: python3 tools/seed_sweep.py [Cxx ...]
+usage: python3 tools/seed_sweep.py [--dir seeded2] [Cxx ...]
 """
 import json
 import os
@@ -11,10 +11,15 @@ import subprocess
 import sys
 
 V = '/verif'
-ids = sys.argv[1:] or [f'C{i:02d}' for i in range(1, 21)]
+SUB = 'seeded'
+args = sys.argv[1:]
+if args and args[0] == '--dir':
+    SUB = args[1]
+    args = args[2:]
+ids = args or [f'C{i:02d}' for i in range(1, 21)]
 WT = '/tmp/seed_sweep_wt'
 for pid in ids:
-    d = f'{V}/seeded/{pid}'
+    d = f'{V}/{SUB}/{pid}'
     patch = f'{d}/patch.diff'
     if not os.path.exists(patch):
         print(pid, 'no patch')
@@ -42,7 +47,7 @@ for pid in ids:
     lines = [l.strip() for l in out.splitlines() if l.startswith('VIOLATION')]
     m = json.load(open(f'{d}/meta.json'))
     old = m.get('check') or {}
-    chk = {'command': f'git -C /repo apply seeded/{pid}/patch.diff; ./check {pid}; git -C /repo checkout -- .   (run by tools/seed_sweep.py on a scratch worktree of /repo HEAD through VERIF_REPO)',
+    chk = {'command': f'git -C /repo apply {SUB}/{pid}/patch.diff; ./check {pid}; git -C /repo checkout -- .   (run by tools/seed_sweep.py on a scratch worktree of /repo HEAD through VERIF_REPO)',
            'exit': r.returncode, 'caught': r.returncode == 1 and bool(lines), 'violation_lines': lines}
     for k in ('note', 'first_evaluation'):
         if k in old:
